@@ -211,6 +211,8 @@ def step_traj(repo):
     g["angleDivisor"] = int(float(m.group(1)))
     m = _need(re.search(r"start_time_msec\s*/\s*([0-9.]+)f\s*;", traj), "msec per sec")
     g["msecPerSec"] = int(float(m.group(1)))
+    trajh = _strip_comments(_read(repo, "include/skybrush/trajectory.h"))
+    g["segmentFormats"] = extract_enum(trajh, "sb_trajectory_segment_format_flags_t", "sb_trajectory_segment_format_flags_t")
     return g
 
 
@@ -257,7 +259,7 @@ GOOD_KEYS = {
     "builder": ["builderHeaderLength", "builderMaxDurationMsec", "builderExtend"],
     "rth": ["rthMaxDuration", "rthActions"],
     "yaw": ["yawSizeOfDelta"],
-    "trajectory": ["angleModulus", "angleDivisor", "msecPerSec"],
+    "trajectory": ["angleModulus", "angleDivisor", "msecPerSec", "segmentFormats"],
 }
 
 
@@ -309,6 +311,11 @@ def render(g):
         o.append(f"def {k} : Nat := {g[k]}")
     o.append(f"def endedWakeup : List Nat := {g['endedWakeup']}")
     o.append("")
+    o.append("/-- `sb_trajectory_segment_format_flags_t` (include/skybrush/trajectory.h) -/")
+    o.append("def segmentFormats : List (String × Nat) := [" + ", ".join(f'("{n}", {v})' for n, v in g["segmentFormats"]) + "]")
+    for n, v in g["segmentFormats"]:
+        o.append(f"def {lean_ident(n)} : Nat := {v}")
+    o.append("")
     o.append("/-- numbering of `sb_rth_action_t` (include/skybrush/rth_plan.h) -/")
     o.append("def rthActions : List (String × Nat) := [" + ", ".join(f'("{n}", {v})' for n, v in g["rthActions"]) + "]")
     for n, v in g["rthActions"]:
@@ -324,7 +331,7 @@ def lean_str(s):
 
 def _tuples(g):
     """JSON gives lists where the extraction gives tuples: normalise for rendering"""
-    for k in ("errors", "blockTypes", "features", "commands", "rthActions"):
+    for k in ("errors", "blockTypes", "features", "commands", "rthActions", "segmentFormats"):
         if k in g:
             g[k] = [tuple(x) for x in g[k]]
     return g
